@@ -62,7 +62,9 @@ fn spec(s: ChannelSpec) -> String {
     let c3 = match <(isize, isize, isize)>::try_from(s) { Ok(v) => format!("{}_{}_{}", v.0, v.1, v.2), Err(e) => format!("E{}", e.get_code()) };
     let u1 = match <usize>::try_from(s) { Ok(v) => v.to_string(), Err(e) => format!("E{}", e.get_code()) };
     let u2 = match <(usize, usize)>::try_from(s) { Ok(v) => format!("{}_{}", v.0, v.1), Err(e) => format!("E{}", e.get_code()) };
-    format!("{}/{}/{}/{}/{}/{}/{}", s.dimension(), if dims.is_empty() { "-".to_string() } else { dims.join("!") }, c1, c2, c3, u1, u2)
+    // ChannelSpec::len / is_empty are documented as the dimension count
+    let lennote = if s.len() != s.dimension() || s.is_empty() != (s.dimension() == 0) { format!("LEN-DIFFERS[{}]", s.len()) } else { String::new() };
+    format!("{}{}/{}/{}/{}/{}/{}/{}", lennote, s.dimension(), if dims.is_empty() { "-".to_string() } else { dims.join("!") }, c1, c2, c3, u1, u2)
 }
 
 pub fn clist(expr: &[u8]) -> String {
